@@ -45,6 +45,26 @@ CHECKS["C16"] = dict(
          "Correspondence exhaustive over the decision domain (2x2x2x10x11x3x2) + random ids/payloads through the real SimpleService with a recording transport.",
     design="6 (C16)", technique="Coq proof by case analysis of the decision chain + exhaustive differential correspondence", note=COMMON_NOTE)
 
+CHECKS["C02"] = dict(
+    text="Coq theorems over the model of _find / assign_option_indexes / resolve_options / entry, option and SD-header build+parse, for ALL messages in the "
+         "property's domain (no bound on entries, options, sharing pattern): the search is sound, in range and terminates; assignment is total; "
+         "resolve(assign m) = m with each entry's exact option runs (invariant: the shared array only grows by appending); encode-then-decode gives back the "
+         "assigned header (option/entry/header round trips incl. configuration strings, flag bits by a finite sweep); counts > 15 / indexes > 255 never emit bytes. "
+         "Not proved: the exact iff for encoding errors and the independent layout decoder's agreement (it runs extracted on the implementation's bytes instead). "
+         "Correspondence: indexes + shared array compared exactly, 0-300 distinct options, send_sd -> receive path.",
+    design="6 (C02)", technique="Coq proof (induction over entries/options, append-only invariant, bit-field lemmas) + differential correspondence + extracted independent decoder", note=COMMON_NOTE)
+CHECKS["C03"] = dict(
+    text="Coq theorems for every decoder and every input: termination (fuel never exhausted), value + suffix of the input, errors only ParseError / IncompleteReadError / "
+         "Unicode-only-with-a-byte>=0x80. The 'no other exception type escapes' half and the live receive-path half (no listener call, no transmission, no state change for "
+         "non-SD datagrams; unicast-flag-clear entries ignored; service endpoint never raises) are checked on the real ServiceDiscoveryProtocol / SimpleService with state snapshots "
+         "over the malformed stream (differential / exploration strength for that half).",
+    design="6 (C03)", technique="Coq proof of totality and error kinds for all decoders + malformed-stream differential correspondence + live twin-state checks", note=COMMON_NOTE)
+CHECKS["C20"] = dict(
+    text="Coq theorems: every accepted SOME/IP message and every accepted SD entry re-encodes without error to exactly the consumed bytes and decodes again to the same value; "
+         "options and SD headers inside wf_opt / wf_sd re-decode to themselves (the statement for every accepted option / SD input is named partial in Properties/C20.v). "
+         "Correspondence: decode-encode-decode cycle on the implementation for accepted inputs reached by mutation and by an independent non-canonical SD encoder.",
+    design="6 (C20)", technique="Coq proof (parse soundness via pack/unpack inverses, bit-field lemmas) + differential correspondence with a non-canonical encoder", note=COMMON_NOTE)
+
 NOT_YET = {}
 
 
